@@ -29,6 +29,7 @@ func propC11(c *Ctx) {
 	c.ruleOpenForEveryKind("C11-OPEN-FOR-EVERY-KIND")
 	c.rulePlaceWhenComplete("C11-PLACE-WHEN-COMPLETE")
 	c.ruleExplicitFlagWriters("C11-EXPLICIT-FLAG-WRITERS")
+	c.ruleURLChildClasses("C11-URL-CHILD-CLASSES")
 	if m := c.E1Base(); m != nil {
 		c.ruleC11Paren(m)
 		c.ruleOpenTransparent(m, "C11-OPEN-TRANSPARENT")
@@ -1157,5 +1158,96 @@ func (c *Ctx) ruleExplicitFlagWriters(rule string) {
 	}
 	if n == 0 {
 		r.Undecided(rule, "sites", "no assignment of the flag found, not even the one of the handler of '('", "")
+	}
+}
+
+// ---------- what may stand under a URL with either protocol ----------
+
+// ruleURLChildClasses: a URL holds either HTTP methods or a JSON-RPC protocol with its methods; mixing them is an
+// error. The test that enforces this sorts the children of a URL into two classes. A kind that the context table
+// allows under a URL and that belongs to neither protocol (Tags: the methods of both protocols fall back to the Tags
+// of their URL) must not be sorted at all - otherwise a document that the table allows is refused because of the
+// company a neutral directive keeps (F50: `URL /rpc` + `Tags @t` + `Protocol json-rpc-2.0`).
+func (c *Ctx) ruleURLChildClasses(rule string) {
+	r := c.R
+	r.Rule(rule, "the kinds that BOTH protocols take from their URL - the child kinds that a function of package catalog reachable from AddHTTPMethod as well as from AddJsonRpcMethod looks for among the children of a directive (X.Type() == directive.K inside a loop over Children; today: Tags), restricted to what the context table allows under URL - are passed over by the test that keeps HTTP and JSON-RPC children of one URL apart: core.checkJsonRpcUrlChildCompatible, run abstractly with every Type() bound to such a kind, never calls the classifier core.isJsonRpcUrlChildDirective. A neutral child is not made the measure of its siblings nor measured against them", 1)
+	t := c.Tables()
+	enumT := c.directiveEnumType()
+	cls := c.fn("core", "isJsonRpcUrlChildDirective")
+	compat := c.fn("core", "checkJsonRpcUrlChildCompatible")
+	addH := c.fn("catalog", "Catalog.AddHTTPMethod")
+	addR := c.fn("catalog", "Catalog.AddJsonRpcMethod")
+	if enumT == nil || cls == nil || compat == nil || addH == nil || addR == nil || len(t.Problems) > 0 {
+		r.Undecided(rule, "anchor", "classifier / compatibility test / interaction constructors / tables not found", "")
+		return
+	}
+	url := ""
+	for k := range t.Children {
+		if strings.EqualFold(k, "URL") {
+			url = k
+		}
+	}
+	if url == "" || len(t.Children[url]) < 5 {
+		r.Undecided(rule, "table", "the children of URL are not in the extracted table", "")
+		return
+	}
+	byName := map[string]*types.Const{}
+	for _, k := range enumConstants(enumT) {
+		byName[k.Name()] = k
+	}
+	inR := map[*types.Func]bool{}
+	for _, g := range c.reachableInPkg(addR) {
+		inR[g.Obj] = true
+	}
+	neutral := map[string]string{}
+	for _, g := range c.reachableInPkg(addH) {
+		if !inR[g.Obj] {
+			continue
+		}
+		ast.Inspect(g.Decl.Body, func(nd ast.Node) bool {
+			rs, ok := nd.(*ast.RangeStmt)
+			if !ok {
+				return true
+			}
+			if sel, ok := ast.Unparen(rs.X).(*ast.SelectorExpr); !ok || sel.Sel.Name != "Children" {
+				return true
+			}
+			ast.Inspect(rs.Body, func(m ast.Node) bool {
+				be, ok := m.(*ast.BinaryExpr)
+				if !ok || be.Op != token.EQL {
+					return true
+				}
+				for _, side := range []ast.Expr{be.X, be.Y} {
+					if k := constObj(g.Pkg, side); k != nil && types.Identical(k.Type(), enumT) && t.Children[url][k.Name()] {
+						neutral[k.Name()] = g.Name()
+					}
+				}
+				return true
+			})
+			return true
+		})
+	}
+	if len(neutral) == 0 {
+		r.Undecided(rule, "kinds", "no child kind that both protocols take from their URL was found in package catalog", "")
+		return
+	}
+	var kinds []string
+	for k := range neutral {
+		kinds = append(kinds, k)
+	}
+	sort.Strings(kinds)
+	for _, name := range kinds {
+		k := byName[name]
+		if k == nil {
+			r.Undecided(rule, "kind "+name, "no constant of this name in the enumeration", "")
+			continue
+		}
+		key := "child " + name
+		csig := c.kindSignature(compat, enumT, k)
+		if strings.Contains(csig, "calls "+prog.FuncName(cls.Obj)) {
+			r.Bad(rule, key, "both protocols take "+name+" from their URL ("+neutral[name]+"), yet the compatibility test of the children of a URL sorts it (it calls the classifier for it): a URL that holds "+name+" next to a JSON-RPC Protocol or Method is refused although the context table allows both ("+csig+")", c.pos(compat.Decl.Pos()))
+		} else {
+			r.Ok(rule, key, "taken from the URL by both protocols ("+neutral[name]+") and passed over by the compatibility test", c.pos(compat.Decl.Pos()))
+		}
 	}
 }
